@@ -39,7 +39,7 @@ def items(pr):
 def vc_filter(vc):
     if vc.kind in ("case", "cover", "shape", "flow", "effect"):
         return True
-    return any(l in vc.label for l in C12_LABELS) or vc.kind != "post"
+    return any(l in vc.label for l in C12_LABELS) or vc.kind != "post" or vc.func.endswith("_create_and_process_transaction")
 
 
 # ----------------------------------------------------------------------------------------------------------------- parse_ods
@@ -161,6 +161,10 @@ def numbers(pr):
     q3 = "rp2.ods_parser._create_and_process_transaction"
     f3 = A.func_node(pr.tree, q3)
     out.append(A.bvc(q3, "shape", "no_handler_between_row_and_set", f3 is not None and not [n for n in ast.walk(f3) if isinstance(n, ast.Try)], REL))
+    # the split of an IN row with a crypto fee rebuilds the transaction: what was validated (asset, exchange, holder, type, instant) must be what is re-submitted,
+    # otherwise a row that does not belong to the sheet is silently re-labelled
+    from props import C11
+    out += [vc for vc in C11.fee_split(pr) if any(k in vc.label for k in ("_asset_", "_exchange_", "_holder_", "_timestamp_", "InTransaction_transaction_type", "_configuration_"))]
     return out
 
 
